@@ -123,4 +123,24 @@ example : ∃ it', (⟨⟨1, 5⟩, 2, 1⟩ : Rows).next = .ok (some ⟨1, 2⟩, 
 example : (TD.rows (⟨[1, 2, 3, 4, 5, 6], 2, 3⟩ : TD Nat)).abs 2 = [⟨0, 3⟩, ⟨3, 3⟩] :=
   (C08_rows_owned (⟨[1, 2, 3, 4, 5, 6], 2, 3⟩ : TD Nat) ⟨rfl, by decide, by decide⟩).2
 
+/-- **the ideal sequence by counting** (what the oracle evaluates for arrays of up to `usize::MAX` zero-sized cells, where no list
+    can be enumerated): for every sequence and operation, whether an item is yielded and how many items remain are functions of
+    the length alone (`Seq.cstep`), and `len` reports that length -/
+theorem C08_counting {ι : Type} (l : List ι) (op : Seq.Op) :
+    (Seq.step l op).2.length = (Seq.cstep l.length op).2 ∧
+    (match (Seq.step l op).1 with
+     | .item x => x.isSome = (Seq.cstep l.length op).1
+     | .num k => k = l.length ∧ (Seq.cstep l.length op).1 = false) := by
+  cases op with
+  | next =>
+    cases l <;> simp [Seq.step, Seq.cstep, Seq.next]
+  | nextBack =>
+    cases h : l.getLast? <;> simp [Seq.step, Seq.cstep, Seq.nextBack, h] <;>
+      (first | (have := List.getLast?_eq_none_iff.1 h; simp [this]) | (cases l <;> simp_all))
+  | nth n =>
+    by_cases hn : n < l.length <;> simp [Seq.step, Seq.cstep, Seq.nth, hn] <;> omega
+  | nthBack n =>
+    by_cases hn : n < l.length <;> simp [Seq.step, Seq.cstep, Seq.nthBack, hn] <;> omega
+  | len => simp [Seq.step, Seq.cstep]
+
 end Toodee
